@@ -108,6 +108,10 @@ def _oracle_all(ctx):
                 for l in ctx.read_lines(out + ".stats"):
                     k, n = l.split()
                     ctx.count("oracle.clause." + k, int(n))
+            harness_errors = [v for v in verdicts if v.startswith("HARNESS")]
+            if harness_errors:   # the machine, not the code: e.g. the cmd stream's child process could not be started
+                ctx.count("oracle.%s.harness-errors" % st, len(harness_errors))
+                ctx.tie_broken("harness-error:" + st, "%d case(s) could not be run: %s" % (len(harness_errors), harness_errors[0]))
             for i, v in enumerate(verdicts):
                 if v.startswith("FAIL"):
                     case = _case_at(ctx, g, i)
@@ -182,7 +186,7 @@ def _live(ctx):
         elif l.startswith("r ") and cur is not None and i < len(m) and m[i] != "none":
             cur["v4" if l.split()[1] == "4" else "v6"].append(m[i])
     named = re.compile(r"--(?:uid|gid)-owner (?![0-9]+( |$))")
-    tried = accepted = 0
+    tried = accepted = known_argc = 0
     rejected = []
     for c in cases:
         if tried >= ctx.n(40, 400) or left() < 1.0:
@@ -200,6 +204,8 @@ def _live(ctx):
             tried += 1
             if r.returncode == 0:
                 accepted += 1
+            elif "cannot handle more arguments" in (r.stderr or r.stdout) and max(l.count("--gid-owner") for l in c["v4"]) >= 50:
+                known_argc += 1   # recorded class c20:owner-groups-over-argc-limit, confirmed by the real tool
             else:
                 rejected.append((r.stderr or r.stdout).strip()[:200])
         except Exception:
@@ -207,7 +213,8 @@ def _live(ctx):
     live["restore_texts_tried"], live["restore_texts_accepted"] = tried, accepted
     live["restore_rejections"] = rejected[:5]
     ctx.count("live.restore.accepted", accepted)
-    ctx.count("live.restore.rejected", tried - accepted)
+    ctx.count("live.restore.rejected", tried - accepted - known_argc)
+    ctx.count("live.restore.rejected-known-owner-groups-argc", known_argc)
     for msg in rejected[:3]:
         ctx.log("live acceptance: the installed iptables-restore refused a generated text (evidence only): " + msg)
 
@@ -223,6 +230,13 @@ OBSERVATIONS = {
     "c20:loopback-included-delivery-loop":
         "GENUINE LOOP: TPROXY mode + a loopback range in OUTBOUND_IP_RANGES_INCLUDE: the bypass rules are not emitted and every "
         "delivery of the uid-0 / gid-proxy proxy on lo is redirected back to its inbound port",
+    "c20:owner-groups-over-argc-limit":
+        "Config.Validate admits up to 64 owner groups to include, the single rule listing them has 5 words per group, and from 50 "
+        "groups on iptables-restore refuses the input (\"Parser cannot handle more arguments\", 254 per line): nothing is installed",
+    "c20:cleanup-leaves-jump-target-only-chain":
+        "CleanupOnly leaves an empty ISTIO chain behind when the configuration declares a chain it never puts a rule into "
+        "(buildCleanupRules only flushes / deletes chains that own a rule): no proxy identity (--proxy-uid=, --proxy-gid=,), DNS "
+        "capture with servers of one family only, IPv6 on -> raw/ISTIO_OUTPUT_DNS survives in the other family",
     "c20:kubevirt-ignores-outbound-exclusions":
         "traffic entering on a KUBE_VIRT_INTERFACES interface is redirected to the outbound port by the included ranges only: "
         "excluded destination ranges, excluded ports and loopback destinations are not honoured",
@@ -362,12 +376,33 @@ def run(ctx):
         "in TPROXY mode the proxy does not run under the FIRST configured proxy identity (injection template: uid 0 / gid 1337): nat cannot "
         "see marks, so a first-identity packet carrying the TPROXY mark is indistinguishable from the legitimate call-to-self",
     ]
+    ctx.assumptions += [
+        "conntrack: the nat table is walked for the packet that creates a conntrack entry - state NEW, or RELATED standing for the first "
+        "packet of an expected connection (nf_nat_inet_fn); ESTABLISHED / INVALID packets never reach it. Not probed live.",
+        "argument limits of the restore tools: at most 251 words per rule line (iptables 1.8.x MAX_ARGC 255); `rulesOf_wellFormed` holds "
+        "for at most 49 included owner groups, the 50..64 range Validate admits is the recorded class c20:owner-groups-over-argc-limit",
+        "generated values are canonical: no blanks inside lists ('80, 443'), no '*' as a list ELEMENT, no hexadecimal marks (the real code "
+        "passes such tokens through to iptables unvalidated; the model answers `unmodelled`)",
+        "stream cmd runs the real command always with --dry-run (nothing may touch the machine's tables); the real-dependencies branch of "
+        "ProgramIptables and Run's deferred iptables-save are not exercised",
+        "stream apply has no Lean model: VerifyIptablesState, the guardrail / check / cleanup builders, GetStateFromSave and "
+        "HasIstioLeftovers run under Go oracle clauses only, against the in-memory iptables of sim.go; configurations without any proxy "
+        "identity are generated there too (reachable with --proxy-uid=, --proxy-gid=,) and their CleanupOnly leftover is the recorded, "
+        "cause-keyed class c20:cleanup-leaves-jump-target-only-chain",
+    ]
     ctx.trusted.append("harness/c20/interp.go: Go reference netfilter interpreter and the Go statement of the property (oracle)")
     ctx.trusted.append("tools/istio-iptables/pkg/cmd/zz_verif_c20.go (verif-tagged accessor for bindCmdlineFlags)")
     ctx.trusted.append("harness/c20/sim.go: the stateful in-memory iptables / iptables-save / iptables-restore of the apply stream")
     ctx.trusted.append("harness/c20/real.go `contract` (literal flag / shorthand / environment-variable names) and packets.go `intended()` / "
                        "`mustRefuse()` (the documented meaning of an invocation, written independently of tools/common/config)")
     ctx.trusted.append("harness/c20/probe.py (live kernel probe, optional) and harness/c20/host.go (private mount namespace for /etc)")
+    # nothing generated by an earlier run may take part in this one (the oracle scans *.gen.ops)
+    for f in os.listdir(ctx.work):
+        if f.endswith((".gen.ops", ".verdict", ".stats", ".oracle.ops", ".run.impl", ".run.model")) or f == "findings.out":
+            try:
+                os.remove(os.path.join(ctx.work, f))
+            except OSError:
+                pass
     proved = ctx.lean_prove(THEOREMS)
     if not ctx.build_drv():
         return
